@@ -125,11 +125,15 @@ def readLineLoop (enc : Encoding) : Nat → Sched → List UInt8 → Except IoKi
               else readLineLoop enc fuel s'' (buf' ++ [b])
           else readLineLoop enc fuel s' buf'
 
-/-- `Decoder::read_line`, returning the raw buffer (`None` at end of input). -/
-def readRaw (enc : Encoding) (s : Sched) : Except IoKind (Option (List UInt8)) × Sched :=
-  match readLineLoop enc (Sched.size s + 1) s [] with
+/-- `Decoder::read_line` with the loop bound given, returning the raw buffer (`None` at end of input). -/
+def readRawFuel (enc : Encoding) (fuel : Nat) (s : Sched) : Except IoKind (Option (List UInt8)) × Sched :=
+  match readLineLoop enc fuel s [] with
   | (.error k, s') => (.error k, s')
   | (.ok buf, s') => (if buf.isEmpty then .ok none else .ok (some buf), s')
+
+/-- `Decoder::read_line`: more iterations than there are events and bytes left cannot happen. -/
+def readRaw (enc : Encoding) (s : Sched) : Except IoKind (Option (List UInt8)) × Sched :=
+  readRawFuel enc (Sched.size s + 1) s
 
 /-- `Decoder::curr_line`. -/
 def currLine (enc : Encoding) (buf : List UInt8) : Str := trimEnd (enc.decode buf)
@@ -138,7 +142,7 @@ def currLine (enc : Encoding) (buf : List UInt8) : Str := trimEnd (enc.decode bu
 def readAllFuel (enc : Encoding) : Nat → Sched → List Str × Option IoKind
   | 0, _ => ([], none)
   | fuel + 1, s =>
-    match readRaw enc s with
+    match readRawFuel enc (fuel + 1) s with    -- `fuel + 1` bounds what is left to read, see `readAll`
     | (.error k, _) => ([], some k)
     | (.ok none, _) => ([], none)
     | (.ok (some buf), s') =>
